@@ -494,24 +494,48 @@ Proof.
   unfold reset_internal. hrun. reflexivity.
 Qed.
 
-Lemma tm_limit_other : forall k pkt t0 cnt prog nw fs lg d fh,
-  get_fault_handler (l_faults c) C_CHECK_LIMIT = Some fh -> fh <> FH_CANCEL -> fh <> FH_ABANDON ->
+(* IGNORE (F34 repair): the expiry is counted and the timer restarted as below the limit *)
+Lemma tm_limit_ignore : forall k pkt t0 cnt prog nw fs lg d,
+  get_fault_handler (l_faults c) C_CHECK_LIMIT = Some FH_IGNORE ->
   timed_out nw (t0, ms) = true -> lookup fs name = Some (File d) -> 0 <= prog -> vok d prog = false ->
   r_check_limit r <= cnt + 1 ->
   tail_mid k pkt (CL t0 cnt prog (mkEnv nw fs false lg)) =
-  (CL t0 cnt prog (mkEnv nw fs false (lim_ev fh prog :: ign prog :: lg)), Ok tt).
+  (CL nw (cnt + 1) prog (mkEnv nw fs false (lim_ev FH_IGNORE prog :: ign prog :: lg)), Ok tt).
 Proof.
-  intros k pkt t0 cnt prog nw fs lg d fh Hfh Hn1 Hn2 Hto Hl Hp Hv Hlim.
+  intros k pkt t0 cnt prog nw fs lg d Hfh Hto Hl Hp Hv Hlim.
   assert (El : (r_check_limit r <=? cnt + 1) = true) by (apply Z.leb_le; exact Hlim).
-  assert (E1 : (fh =? FH_CANCEL) = false) by (apply Z.eqb_neq; exact Hn1).
-  assert (E2 : (fh =? FH_ABANDON) = false) by (apply Z.eqb_neq; exact Hn2).
   unfold tail_mid, CL. unfold ST at 1. hrun. unfold check_limit_handling, rcfg_or_assert, now. hrun. prj. rewrite Hto.
   cbv iota. hrun.
   match goal with |- bind checksum_verify ?k ?s = _ =>
     rewrite (bind_ok _ _ checksum_verify k s _ _
       (cv_fail DS_RECV_WITH_CHECK_LIMIT (Some (t0, ms)) cnt prog nw fs lg d Hl Hp Hv : checksum_verify s = (_, _))) end. cbv iota.
   unfold ST, tid0. hrun. prj. rewrite El. cbv iota. unfold declare_fault. hrun. prj. rewrite Hfh. cbv iota.
-  rewrite E1, E2. hrun. rewrite ?E2. hrun.
+  change (FH_IGNORE =? FH_CANCEL) with false. change (FH_IGNORE =? FH_ABANDON) with false. cbv iota. hrun.
+  change (FH_IGNORE =? FH_ABANDON) with false. cbv iota. hrun.
+  change (FH_IGNORE =? FH_IGNORE) with true. cbv iota. hrun. prj. hrun.
+  unfold tail_fin. hrun. reflexivity.
+Qed.
+
+(* any other handler (SUSPEND): only the callback *)
+Lemma tm_limit_other : forall k pkt t0 cnt prog nw fs lg d fh,
+  get_fault_handler (l_faults c) C_CHECK_LIMIT = Some fh -> fh <> FH_CANCEL -> fh <> FH_ABANDON -> fh <> FH_IGNORE ->
+  timed_out nw (t0, ms) = true -> lookup fs name = Some (File d) -> 0 <= prog -> vok d prog = false ->
+  r_check_limit r <= cnt + 1 ->
+  tail_mid k pkt (CL t0 cnt prog (mkEnv nw fs false lg)) =
+  (CL t0 cnt prog (mkEnv nw fs false (lim_ev fh prog :: ign prog :: lg)), Ok tt).
+Proof.
+  intros k pkt t0 cnt prog nw fs lg d fh Hfh Hn1 Hn2 Hn3 Hto Hl Hp Hv Hlim.
+  assert (El : (r_check_limit r <=? cnt + 1) = true) by (apply Z.leb_le; exact Hlim).
+  assert (E1 : (fh =? FH_CANCEL) = false) by (apply Z.eqb_neq; exact Hn1).
+  assert (E2 : (fh =? FH_ABANDON) = false) by (apply Z.eqb_neq; exact Hn2).
+  assert (E3 : (fh =? FH_IGNORE) = false) by (apply Z.eqb_neq; exact Hn3).
+  unfold tail_mid, CL. unfold ST at 1. hrun. unfold check_limit_handling, rcfg_or_assert, now. hrun. prj. rewrite Hto.
+  cbv iota. hrun.
+  match goal with |- bind checksum_verify ?k ?s = _ =>
+    rewrite (bind_ok _ _ checksum_verify k s _ _
+      (cv_fail DS_RECV_WITH_CHECK_LIMIT (Some (t0, ms)) cnt prog nw fs lg d Hl Hp Hv : checksum_verify s = (_, _))) end. cbv iota.
+  unfold ST, tid0. hrun. prj. rewrite El. cbv iota. unfold declare_fault. hrun. prj. rewrite Hfh. cbv iota.
+  rewrite E1, E2. hrun. rewrite ?E2. hrun. rewrite ?E3. hrun.
   unfold tail_fin. hrun. reflexivity.
 Qed.
 
@@ -721,16 +745,29 @@ Proof.
   reflexivity.
 Qed.
 
+Lemma cl_call_limit_ignore : forall it t0 cnt prog nw fs lg old,
+  get_fault_handler (l_faults c) C_CHECK_LIMIT = Some FH_IGNORE ->
+  lookup fs name = Some (File old) -> it_fits it -> timed_out (fst it + nw) (t0, ms) = true ->
+  0 <= it_prog it prog -> vok (it_file it old) (it_prog it prog) = false -> r_check_limit r <= cnt + 1 ->
+  call_d (item_call h it) (CL t0 cnt prog (mkEnv nw fs false lg)) =
+  (CL (fst it + nw) (cnt + 1) (it_prog it prog) (mkEnv (fst it + nw) (it_fs it fs old) false
+           (lim_ev FH_IGNORE (it_prog it prog) :: ign (it_prog it prog) :: it_log it lg)), Ok []).
+Proof.
+  intros it t0 cnt prog nw fs lg old Hfh Hl Hf Hto Hp Hv Hlim. unfold call_d. rewrite (cl_call_pre _ _ _ _ _ _ _ _ Hl Hf).
+  erewrite catch_abandoned_ok by (apply (tm_limit_ignore _ _ _ _ _ _ _ _ _ Hfh Hto (lookup_it_fs _ _ _ Hl) Hp Hv Hlim)).
+  reflexivity.
+Qed.
+
 Lemma cl_call_limit_other : forall it t0 cnt prog nw fs lg old fh,
-  get_fault_handler (l_faults c) C_CHECK_LIMIT = Some fh -> fh <> FH_CANCEL -> fh <> FH_ABANDON ->
+  get_fault_handler (l_faults c) C_CHECK_LIMIT = Some fh -> fh <> FH_CANCEL -> fh <> FH_ABANDON -> fh <> FH_IGNORE ->
   lookup fs name = Some (File old) -> it_fits it -> timed_out (fst it + nw) (t0, ms) = true ->
   0 <= it_prog it prog -> vok (it_file it old) (it_prog it prog) = false -> r_check_limit r <= cnt + 1 ->
   call_d (item_call h it) (CL t0 cnt prog (mkEnv nw fs false lg)) =
   (CL t0 cnt (it_prog it prog) (mkEnv (fst it + nw) (it_fs it fs old) false
            (lim_ev fh (it_prog it prog) :: ign (it_prog it prog) :: it_log it lg)), Ok []).
 Proof.
-  intros it t0 cnt prog nw fs lg old fh Hfh H1 H2 Hl Hf Hto Hp Hv Hlim. unfold call_d. rewrite (cl_call_pre _ _ _ _ _ _ _ _ Hl Hf).
-  erewrite catch_abandoned_ok by (apply (tm_limit_other _ _ _ _ _ _ _ _ _ _ Hfh H1 H2 Hto (lookup_it_fs _ _ _ Hl) Hp Hv Hlim)).
+  intros it t0 cnt prog nw fs lg old fh Hfh H1 H2 H3 Hl Hf Hto Hp Hv Hlim. unfold call_d. rewrite (cl_call_pre _ _ _ _ _ _ _ _ Hl Hf).
+  erewrite catch_abandoned_ok by (apply (tm_limit_other _ _ _ _ _ _ _ _ _ _ Hfh H1 H2 H3 Hto (lookup_it_fs _ _ _ Hl) Hp Hv Hlim)).
   reflexivity.
 Qed.
 
@@ -1168,8 +1205,36 @@ Proof.
   rewrite run_calls_snoc. rewrite <- it_log_seg_ev. apply (calls_d_app _ _ _ _ _ _ _ E1). apply calls_d_one. exact E2.
 Qed.
 
+(* IGNORE (F34 repair): the limit-th expiry is counted and restarts the timer like the ones before it *)
+Lemma limit_ignore_run : forall fs sn dn msgs early pre fin dt0 dt1 fl,
+  get_fault_handler (l_faults c) C_CHECK_LIMIT = Some FH_IGNORE ->
+  name = dest_name fs sn dn -> dest_writable fs name ->
+  Forall (slice_of data) (received (early ++ pre ++ [fin])) ->
+  no_collision ck size cks (received (early ++ pre ++ [fin])) -> missing size (received (early ++ pre ++ [fin])) ->
+  expiries ms 0 pre + 1 = r_check_limit r ->
+  ms <= elapsed ms 0 pre + fst fin ->
+  let prog := extent (map span (received (early ++ pre ++ [fin]))) in
+  exists nw fs' lg,
+    calls_d (run_calls sn dn msgs fl dt0 dt1 early (pre ++ [fin])) (dst_fresh c fs) =
+      (CL nw (expiries ms 0 pre + 1) prog
+          (mkEnv nw fs' false (lim_ev FH_IGNORE prog :: ign prog :: seg_ev fin ++ lg)), Ok (quiet_out early pre ++ [[]])) /\
+    lookup fs' name = Some (File (written (received (early ++ pre ++ [fin])))) /\
+    quiet_log srcid seq (1 + expiries ms 0 pre) lg.
+Proof.
+  intros fs sn dn msgs early pre fin dt0 dt1 fl Hfh Hn Hw HF HN Hm Hlim Hex prog.
+  destruct (limit_pre fs sn dn msgs early pre fin dt0 dt1 fl Hn Hw HF HN Hm Hlim Hex)
+    as [nw1 [fs1 [lg1 [E1 [Hl1 [Hq1 [Hfit [Hto [Ep [Ef Hv]]]]]]]]]].
+  assert (Hp : 0 <= it_prog fin (extent (map span (received (early ++ pre))))) by (rewrite Ep; apply extent_nonneg).
+  pose proof (cl_call_limit_ignore fin _ (expiries ms 0 pre) _ nw1 fs1 lg1 _ Hfh Hl1 Hfit Hto Hp) as E2.
+  rewrite Ef, Ep in E2. specialize (E2 Hv ltac:(lia)).
+  pose proof (lookup_it_fs fin fs1 _ Hl1) as Hl2. rewrite Ef in Hl2.
+  exists (fst fin + nw1). eexists. exists lg1. split; [|split; [exact Hl2 | exact Hq1]].
+  rewrite run_calls_snoc. rewrite <- it_log_seg_ev.
+  apply (calls_d_app _ _ _ _ _ _ _ E1). apply calls_d_one. exact E2.
+Qed.
+
 Lemma limit_other_run : forall fs sn dn msgs early pre fin dt0 dt1 fl fh,
-  get_fault_handler (l_faults c) C_CHECK_LIMIT = Some fh -> fh <> FH_CANCEL -> fh <> FH_ABANDON ->
+  get_fault_handler (l_faults c) C_CHECK_LIMIT = Some fh -> fh <> FH_CANCEL -> fh <> FH_ABANDON -> fh <> FH_IGNORE ->
   name = dest_name fs sn dn -> dest_writable fs name ->
   Forall (slice_of data) (received (early ++ pre ++ [fin])) ->
   no_collision ck size cks (received (early ++ pre ++ [fin])) -> missing size (received (early ++ pre ++ [fin])) ->
@@ -1183,17 +1248,94 @@ Lemma limit_other_run : forall fs sn dn msgs early pre fin dt0 dt1 fl fh,
     lookup fs' name = Some (File (written (received (early ++ pre ++ [fin])))) /\
     quiet_log srcid seq (1 + expiries ms 0 pre) lg.
 Proof.
-  intros fs sn dn msgs early pre fin dt0 dt1 fl fh Hfh Hn1 Hn2 Hn Hw HF HN Hm Hlim Hex prog.
+  intros fs sn dn msgs early pre fin dt0 dt1 fl fh Hfh Hn1 Hn2 Hn3 Hn Hw HF HN Hm Hlim Hex prog.
   destruct (limit_pre fs sn dn msgs early pre fin dt0 dt1 fl Hn Hw HF HN Hm Hlim Hex)
     as [nw1 [fs1 [lg1 [E1 [Hl1 [Hq1 [Hfit [Hto [Ep [Ef Hv]]]]]]]]]].
   assert (Hp : 0 <= it_prog fin (extent (map span (received (early ++ pre))))) by (rewrite Ep; apply extent_nonneg).
-  pose proof (cl_call_limit_other fin _ (expiries ms 0 pre) _ nw1 fs1 lg1 _ fh Hfh Hn1 Hn2 Hl1 Hfit Hto Hp) as E2.
+  pose proof (cl_call_limit_other fin _ (expiries ms 0 pre) _ nw1 fs1 lg1 _ fh Hfh Hn1 Hn2 Hn3 Hl1 Hfit Hto Hp) as E2.
   rewrite Ef, Ep in E2. specialize (E2 Hv ltac:(lia)).
   pose proof (lookup_it_fs fin fs1 _ Hl1) as Hl2. rewrite Ef in Hl2.
   exists (fst fin + nw1). eexists. exists lg1. split; [|split; [exact Hl2 | exact Hq1]].
   rewrite run_calls_snoc. rewrite <- it_log_seg_ev.
   replace (fst fin + nw1 - fst fin - elapsed ms 0 pre) with (nw1 - elapsed ms 0 pre) by lia.
   apply (calls_d_app _ _ _ _ _ _ _ E1). apply calls_d_one. exact E2.
+Qed.
+
+(* after the ignored limit fault: while the restarted timer has not expired the calls only write what they deliver *)
+Lemma cl_wait_run : forall sched ts t0 cnt nw fs lg,
+  Forall (slice_of data) (received sched) ->
+  lookup fs name = Some (File (written ts)) ->
+  expiries ms (nw - t0) sched = 0 ->
+  exists nw' fs',
+    calls_d (map (item_call h) sched) (CL t0 cnt (extent (map span ts)) (mkEnv nw fs false lg)) =
+      (CL t0 cnt (extent (map span (ts ++ received sched))) (mkEnv nw' fs' false (flat_map seg_ev (rev sched) ++ lg)),
+       Ok (map (fun _ => []) sched)) /\
+    nw' - t0 = elapsed ms (nw - t0) sched /\
+    lookup fs' name = Some (File (written (ts ++ received sched))).
+Proof.
+  induction sched as [|it t IH]; intros ts t0 cnt nw fs lg HF Hl Hx.
+  - exists nw, fs. unfold received. cbn [flat_map map calls_d elapsed rev app]. rewrite app_nil_r.
+    split; [reflexivity | split; [reflexivity | exact Hl]].
+  - rewrite received_cons in HF. apply Forall_app in HF. destruct HF as [HFi HFt].
+    pose proof (it_fits_slice it HFi) as Hfit.
+    pose proof (lookup_it_fs it fs _ Hl) as Hl'. rewrite it_file_written in Hl'.
+    cbn [expiries elapsed] in *.
+    pose proof (timed_out_el (fst it) nw t0) as Hto.
+    destruct (ms <=? nw - t0 + fst it) eqn:Ee.
+    { pose proof (expiries_nonneg ms t 0). lia. }
+    pose proof (cl_call_wait it t0 cnt (extent (map span ts)) nw fs lg _ Hl Hfit Hto) as Ec.
+    rewrite it_prog_extent, it_log_seg_ev in Ec.
+    replace (nw - t0 + fst it) with (fst it + nw - t0) in Hx |- * by lia.
+    destruct (IH (ts ++ item_data it) t0 cnt (fst it + nw) _ (seg_ev it ++ lg) HFt Hl' Hx) as [nw' [fs' [Er [Hn Hlr]]]].
+    rewrite <- app_assoc, <- received_cons in Er, Hlr.
+    exists nw', fs'. split; [|split; [exact Hn | exact Hlr]].
+    cbn [map rev]. rewrite flat_map_app. cbn [flat_map]. rewrite app_nil_r, <- app_assoc.
+    apply (calls_d_cons _ _ _ _ _ _ _ Ec Er).
+Qed.
+
+Lemma run_calls_app : forall sn dn msgs fl dt0 dt1 early a b,
+  run_calls sn dn msgs fl dt0 dt1 early (a ++ b) = run_calls sn dn msgs fl dt0 dt1 early a ++ map (item_call h) b.
+Proof.
+  intros. unfold run_calls. rewrite map_app. rewrite app_comm_cons, (app_comm_cons _ _ (dt1, Some (eof_pdu fl))).
+  rewrite app_assoc. reflexivity.
+Qed.
+Lemma quiet_out_app : forall early a b,
+  quiet_out early (a ++ b) = quiet_out early a ++ map (fun _ => []) b.
+Proof.
+  intros. unfold quiet_out. rewrite map_app. rewrite app_comm_cons, (app_comm_cons _ _ []). rewrite app_assoc. reflexivity.
+Qed.
+
+Lemma limit_ignore_once_run : forall fs sn dn msgs early pre fin post dt0 dt1 fl,
+  get_fault_handler (l_faults c) C_CHECK_LIMIT = Some FH_IGNORE ->
+  name = dest_name fs sn dn -> dest_writable fs name ->
+  Forall (slice_of data) (received (early ++ pre ++ [fin])) ->
+  no_collision ck size cks (received (early ++ pre ++ [fin])) -> missing size (received (early ++ pre ++ [fin])) ->
+  expiries ms 0 pre + 1 = r_check_limit r ->
+  ms <= elapsed ms 0 pre + fst fin ->
+  Forall (slice_of data) (received post) -> expiries ms 0 post = 0 ->
+  let prog := extent (map span (received (early ++ pre ++ [fin]))) in
+  exists nw fs' lg,
+    calls_d (run_calls sn dn msgs fl dt0 dt1 early ((pre ++ [fin]) ++ post)) (dst_fresh c fs) =
+      (CL (nw - elapsed ms 0 post) (expiries ms 0 pre + 1) (extent (map span (received ((early ++ pre ++ [fin]) ++ post))))
+          (mkEnv nw fs' false (flat_map seg_ev (rev post) ++ lim_ev FH_IGNORE prog :: ign prog :: seg_ev fin ++ lg)),
+       Ok (quiet_out early ((pre ++ [fin]) ++ post))) /\
+    lookup fs' name = Some (File (written (received ((early ++ pre ++ [fin]) ++ post)))) /\
+    quiet_log srcid seq (1 + expiries ms 0 pre) lg.
+Proof.
+  intros fs sn dn msgs early pre fin post dt0 dt1 fl Hfh Hn Hw HF HN Hm Hlim Hex HFp Hxp prog.
+  destruct (limit_ignore_run fs sn dn msgs early pre fin dt0 dt1 fl Hfh Hn Hw HF HN Hm Hlim Hex)
+    as [nw1 [fs1 [lg1 [E1 [Hl1 Hq1]]]]]. fold prog in E1.
+  destruct (cl_wait_run post (received (early ++ pre ++ [fin])) nw1 (expiries ms 0 pre + 1) nw1 fs1
+              (lim_ev FH_IGNORE prog :: ign prog :: seg_ev fin ++ lg1) HFp Hl1) as [nw2 [fs2 [E2 [Hn2 Hl2]]]].
+  { replace (nw1 - nw1) with 0 by lia. exact Hxp. }
+  replace (nw1 - nw1) with 0 in Hn2 by lia.
+  rewrite <- received_app in E2, Hl2.
+  exists nw2, fs2, lg1. split; [|split; [exact Hl2 | exact Hq1]].
+  rewrite run_calls_app, quiet_out_app.
+  replace (nw2 - elapsed ms 0 post) with nw1 by lia.
+  replace (quiet_out early (pre ++ [fin])) with (quiet_out early pre ++ [[]]).
+  - apply (calls_d_app _ _ _ _ _ _ _ E1 E2).
+  - rewrite quiet_out_app. reflexivity.
 Qed.
 End Run.
 
@@ -1321,8 +1463,10 @@ Lemma late_data_limit :
     (if (fh =? FH_CANCEL) || (fh =? FH_ABANDON)
      then d_state s' = ST_IDLE /\ d_step s' = DS_IDLE /\ d_p s' = fresh_params
      else d_state s' = ST_BUSY /\ d_step s' = DS_RECV_WITH_CHECK_LIMIT /\
-          p_check_count (d_p s') = expiries ms 0 pre /\
-          p_check_timer (d_p s') = Some (now_d s' - fst fin - elapsed ms 0 pre, ms)) /\
+          if fh =? FH_IGNORE
+          then p_check_count (d_p s') = expiries ms 0 pre + 1 /\ p_check_timer (d_p s') = Some (now_d s', ms)
+          else p_check_count (d_p s') = expiries ms 0 pre /\
+               p_check_timer (d_p s') = Some (now_d s' - fst fin - elapsed ms 0 pre, ms)) /\
     lookup (fs_d s') (dest_name fs sn dn) =
       (if (fh =? FH_CANCEL) && r_disposition r then None else Some (File (written (received (early ++ pre ++ [fin]))))).
 Proof.
@@ -1332,7 +1476,7 @@ Proof.
   set (crc := h_crc hd) in *. set (large := h_large hd) in *. set (srcid := h_src hd) in *.
   set (idw := h_idw hd) in *. set (sq := h_seq hd) in *. set (sqw := h_seqw hd) in *.
   clearbody crc large srcid idw sq sqw. cbn [h h_src h_seq] in *.
-  destruct (Z.eq_dec fh FH_CANCEL) as [E1|N1]; [|destruct (Z.eq_dec fh FH_ABANDON) as [E2|N2]].
+  destruct (Z.eq_dec fh FH_CANCEL) as [E1|N1]; [|destruct (Z.eq_dec fh FH_ABANDON) as [E2|N2]; [|destruct (Z.eq_dec fh FH_IGNORE) as [E3|N3]]].
   - subst fh.
     destruct (limit_cancel_run c r crc large srcid idw sq sqw closure ck msize (dest_name fs sn dn) size cks Hrem Hck Hign Hms
                 data Hsize Hcks fs sn dn msgs early pre fin t0 t1 fl Hfh eq_refl Hw HF HN Hm Hlim Hex)
@@ -1353,11 +1497,23 @@ Proof.
     split; [reflexivity|].
     split; [exact Hq|]. split; [reflexivity|]. split; [reflexivity|].
     split; [split; [reflexivity | split; reflexivity]|]. exact Hl.
+  - subst fh.
+    destruct (limit_ignore_run c r crc large srcid idw sq sqw closure ck msize (dest_name fs sn dn) size cks Hrem Hck Hign Hms
+                data Hsize Hcks fs sn dn msgs early pre fin t0 t1 fl Hfh eq_refl Hw HF HN Hm Hlim Hex)
+      as [nw [fs' [lg [E [Hl Hq]]]]].
+    eexists. exists lg. split.
+    { unfold run_calls, md_pdu, eof_pdu in E. rewrite quiet_out_snoc in E; [|exact fin]. exact E. }
+    change (FH_IGNORE =? FH_CANCEL) with false. change (FH_IGNORE =? FH_ABANDON) with false.
+    change (FH_IGNORE =? FH_IGNORE) with true. cbn [andb orb].
+    split; [reflexivity|].
+    split; [exact Hq|]. split; [reflexivity|]. split; [reflexivity|].
+    split; [split; [reflexivity | split; [reflexivity | split; reflexivity]]|]. exact Hl.
   - destruct (limit_other_run c r crc large srcid idw sq sqw closure ck msize (dest_name fs sn dn) size cks Hrem Hck Hign Hms
-                data Hsize Hcks fs sn dn msgs early pre fin t0 t1 fl fh Hfh N1 N2 eq_refl Hw HF HN Hm Hlim Hex)
+                data Hsize Hcks fs sn dn msgs early pre fin t0 t1 fl fh Hfh N1 N2 N3 eq_refl Hw HF HN Hm Hlim Hex)
       as [nw [fs' [lg [E [Hl Hq]]]]].
     replace (fh =? FH_CANCEL) with false by (symmetry; apply Z.eqb_neq; exact N1).
-    replace (fh =? FH_ABANDON) with false by (symmetry; apply Z.eqb_neq; exact N2). cbn [andb orb].
+    replace (fh =? FH_ABANDON) with false by (symmetry; apply Z.eqb_neq; exact N2).
+    replace (fh =? FH_IGNORE) with false by (symmetry; apply Z.eqb_neq; exact N3). cbn [andb orb].
     eexists. exists lg. split.
     { unfold run_calls, md_pdu, eof_pdu in E. rewrite quiet_out_snoc in E; [|exact fin]. exact E. }
     split; [reflexivity|].
@@ -1365,6 +1521,59 @@ Proof.
     split; [split; [reflexivity | split; [reflexivity | split; reflexivity]]|]. exact Hl.
 Qed.
 Print Assumptions late_data_limit.
+
+(* (c'), IGNORE: the ignored fault is declared once - the calls after it that come before the restarted timer expires
+   declare nothing *)
+Lemma late_data_limit_ignored_once :
+  forall (c : lcfg) (r : rcfg) (hd : hdr) (fs : tree) (closure : bool) (ck msize : Z) (sn dn : path) (msgs : list Z)
+         (data cks : bytes) (size ms : Z) (early pre : list item) (fin : item) (post : list item) (fl : option (Z * Z)) (t0 t1 : Z),
+  h_dir hd = TOWARDS_RECEIVER -> h_mode hd = UNACKED -> h_dst hd = l_id c ->
+  get_remote (l_remotes c) (h_src hd) = Some r ->
+  ck = CK_CRC32 \/ ck = CK_CRC32C ->
+  get_fault_handler (l_faults c) C_CHECKSUM_FAILURE = Some FH_IGNORE ->
+  get_fault_handler (l_faults c) C_CHECK_LIMIT = Some FH_IGNORE ->
+  l_check_ms c = ms -> 0 < ms ->
+  dest_writable fs (dest_name fs sn dn) ->
+  size = zlen data -> calculate_checksum ck (Some data) size 4096 = Ok cks ->
+  Forall (slice_of data) (received (early ++ pre ++ [fin])) ->
+  no_collision ck size cks (received (early ++ pre ++ [fin])) ->
+  missing size (received (early ++ pre ++ [fin])) ->
+  expiries ms 0 pre + 1 = r_check_limit r ->
+  ms <= elapsed ms 0 pre + fst fin ->
+  Forall (slice_of data) (received post) ->
+  expiries ms 0 post = 0 ->
+  let prog := extent (map span (received (early ++ pre ++ [fin]))) in
+  exists s' lg,
+    calls_d ((t0, Some (PMetadata hd closure ck msize (Some (sn, dn)) msgs)) :: map (item_call hd) early ++
+             (t1, Some (PEof hd C_NO_ERROR cks size fl)) :: map (item_call hd) ((pre ++ [fin]) ++ post)) (dst_fresh c fs) =
+      (s', Ok ([] :: map (fun _ => []) early ++ [] :: map (fun _ => []) ((pre ++ [fin]) ++ post))) /\
+    log_d s' = flat_map (seg_events c (h_src hd) (h_seq hd)) (rev post) ++
+               EvFault FH_IGNORE (h_src hd) (h_seq hd) C_CHECK_LIMIT prog ::
+               EvFault FH_IGNORE (h_src hd) (h_seq hd) C_CHECKSUM_FAILURE prog ::
+               seg_events c (h_src hd) (h_seq hd) fin ++ lg /\
+    quiet_log (h_src hd) (h_seq hd) (1 + expiries ms 0 pre) lg /\
+    d_state s' = ST_BUSY /\ d_step s' = DS_RECV_WITH_CHECK_LIMIT /\ d_queue s' = [] /\ d_ready s' = 0 /\
+    p_check_count (d_p s') = expiries ms 0 pre + 1 /\
+    p_check_timer (d_p s') = Some (now_d s' - elapsed ms 0 post, ms) /\
+    p_progress (d_p s') = extent (map span (received ((early ++ pre ++ [fin]) ++ post))) /\
+    lookup (fs_d s') (dest_name fs sn dn) = Some (File (written (received ((early ++ pre ++ [fin]) ++ post)))).
+Proof.
+  intros c r hd fs closure ck msize sn dn msgs data cks size ms early pre fin post fl t0 t1
+         Hdir Hmode Hdst Hrem Hck Hign Hfh Ems Hms Hw Hsize Hcks HF HN Hm Hlim Hex HFp Hxp prog. subst ms.
+  rewrite (hdr_form hd c Hdir Hmode Hdst) in *.
+  set (crc := h_crc hd) in *. set (large := h_large hd) in *. set (srcid := h_src hd) in *.
+  set (idw := h_idw hd) in *. set (sq := h_seq hd) in *. set (sqw := h_seqw hd) in *.
+  clearbody crc large srcid idw sq sqw. cbn [h h_src h_seq] in *.
+  destruct (limit_ignore_once_run c r crc large srcid idw sq sqw closure ck msize (dest_name fs sn dn) size cks Hrem Hck Hign Hms
+              data Hsize Hcks fs sn dn msgs early pre fin post t0 t1 fl Hfh eq_refl Hw HF HN Hm Hlim Hex HFp Hxp)
+    as [nw [fs' [lg [E [Hl Hq]]]]].
+  eexists. exists lg. split.
+  { unfold run_calls, md_pdu, eof_pdu, quiet_out in E. exact E. }
+  split; [reflexivity|]. split; [exact Hq|].
+  split; [reflexivity|]. split; [reflexivity|]. split; [reflexivity|]. split; [reflexivity|]. split; [reflexivity|].
+  split; [reflexivity|]. split; [reflexivity|]. exact Hl.
+Qed.
+Print Assumptions late_data_limit_ignored_once.
 
 (* ================================================================== non-vacuity and necessity of the hypotheses *)
 (* a 13-byte file cut at 4; entity 1 sends to entity 2, unacknowledged, CRC-32, check timer 1000 ms *)
@@ -1525,13 +1734,51 @@ Proof.
   - vm_compute. reflexivity.
 Qed.
 
-(* Check Limit Reached handled by IGNORE: the counter and the timer are left as they are, so EVERY later call finds the
-   timer expired at the limit again and declares the fault again (two more polls, 5 ms apart: three declarations) *)
-Example ex_limit_ignored_redeclared :
+(* Check Limit Reached handled by IGNORE (F34 repair): the limit-th expiry (L = 2, at 2020) is counted and restarts the
+   timer, so the following calls, 5 ms apart, declare nothing: ONE declaration after two more polls ... *)
+Example ex_limit_ignored_once :
   let '(s, out) := ex_run (ex_c true 2 1000 ((C_CHECK_LIMIT, FH_IGNORE) :: default_fault_table)) true ex_data ex_early
                      [(1000, None); (1000, None); (5, None); (5, None)] in
   (out, d_state s, d_step s, p_check_count (d_p s), p_check_timer (d_p s), now_d s,
    filter (fun e => match e with EvFault k _ _ cnd _ => cnd =? C_CHECK_LIMIT | _ => false end) (log_d s)) =
-  (Ok [[]; []; []; []; []; []; []; []], ST_BUSY, DS_RECV_WITH_CHECK_LIMIT, 1, Some (1020, 1000), 2030,
-   [EvFault FH_IGNORE 1 5 C_CHECK_LIMIT 13; EvFault FH_IGNORE 1 5 C_CHECK_LIMIT 13; EvFault FH_IGNORE 1 5 C_CHECK_LIMIT 13]).
+  (Ok [[]; []; []; []; []; []; []; []], ST_BUSY, DS_RECV_WITH_CHECK_LIMIT, 2, Some (2020, 1000), 2030,
+   [EvFault FH_IGNORE 1 5 C_CHECK_LIMIT 13]).
 Proof. vm_compute. reflexivity. Qed.
+(* ... still one at 3019, and the second when the restarted timer expires (3020): once per interval, not once per call *)
+Example ex_limit_ignored_next_expiry :
+  let c := ex_c true 2 1000 ((C_CHECK_LIMIT, FH_IGNORE) :: default_fault_table) in
+  let lim := filter (fun e => match e with EvFault k _ _ cnd _ => cnd =? C_CHECK_LIMIT | _ => false end) in
+  let '(s1, _) := ex_run c true ex_data ex_early [(1000, None); (1000, None); (5, None); (5, None); (989, None)] in
+  let '(s2, out) := ex_run c true ex_data ex_early [(1000, None); (1000, None); (5, None); (5, None); (989, None); (1, None)] in
+  (now_d s1, lim (log_d s1), out, d_step s2, p_check_count (d_p s2), p_check_timer (d_p s2), now_d s2, lim (log_d s2)) =
+  (3019, [EvFault FH_IGNORE 1 5 C_CHECK_LIMIT 13],
+   Ok [[]; []; []; []; []; []; []; []; []; []], DS_RECV_WITH_CHECK_LIMIT, 3, Some (3020, 1000), 3020,
+   [EvFault FH_IGNORE 1 5 C_CHECK_LIMIT 13; EvFault FH_IGNORE 1 5 C_CHECK_LIMIT 13]).
+Proof. vm_compute. reflexivity. Qed.
+
+(* the hypotheses of c13_late_data_limit_ignored_once hold in the run of ex_limit_ignored_once *)
+Example ex_hyps_limit_ignored :
+  let c := ex_c true 2 1000 ((C_CHECK_LIMIT, FH_IGNORE) :: default_fault_table) in
+  let pre : list item := [(1000, None)] in
+  let fin : item := (1000, None) in
+  let post : list item := [(5, None); (5, None)] in
+  get_fault_handler (l_faults c) C_CHECKSUM_FAILURE = Some FH_IGNORE /\
+  get_fault_handler (l_faults c) C_CHECK_LIMIT = Some FH_IGNORE /\
+  Forall (slice_of ex_data) (received (ex_early ++ pre ++ [fin])) /\
+  no_collision CK_CRC32 13 (ex_cks ex_data) (received (ex_early ++ pre ++ [fin])) /\
+  missing 13 (received (ex_early ++ pre ++ [fin])) /\
+  expiries 1000 0 pre + 1 = r_check_limit (ex_r true 2) /\
+  1000 <= elapsed 1000 0 pre + fst fin /\
+  Forall (slice_of ex_data) (received post) /\ expiries 1000 0 post = 0.
+Proof.
+  cbv zeta. split; [reflexivity|]. split; [reflexivity|].
+  split. { repeat constructor; apply ex_slices; cbn; tauto. }
+  split. { intros ts1 ts2 Happ Hm He. destruct ts1 as [|a [|b [|c0 ts1]]]; cbn [app] in Happ.
+           - vm_compute in He. discriminate He.
+           - injection Happ as -> _. vm_compute in He. discriminate He.
+           - injection Happ as -> -> _. vm_compute. intro Hx. discriminate Hx.
+           - discriminate Happ. }
+  split. { exists 8. split; [lia|]. intros [fd [Hin Hx]]. cbn in Hin.
+           destruct Hin as [<- | [<- | []]]; vm_compute in Hx; destruct Hx; congruence. }
+  split; [reflexivity|]. split; [vm_compute; discriminate|]. split; [constructor | reflexivity].
+Qed.
